@@ -41,4 +41,14 @@ CHECKS = {
   "note": "Trusted: Coq kernel; adapters; numpy boolean filtering/indexing = list filtering/indexing. Outside the +-10 octave window the code raises "
           "IndexError (modelled as None, not claimed). 'Reference survives rests and chord changes' is a rendering-level clause proved with C03's model.",
  },
+ "C10": {
+  "text": "Theorems over Q: the generated duration table equals the documented one (w..t, dotted x3/2, tuplets x2/n; 31 entries both ways, "
+          "injective, DURATION_TO_STR its inverse); limit_denominator(1000) is the identity on denominators <= 1000; notes store/augment/set "
+          "durations exactly; onsets are partial sums; concatenation adds and repetition multiplies for all lists; a chord lasts its longest "
+          "part; augment(k) multiplies every note and the total; set_duration(d) totals exactly d; decompose_duration keeps a note's and a "
+          "melody's total whenever every limit_denominator call on the way is exact (a computable guard, checked true on every in-domain "
+          "case by the correspondence). CPython's limit_denominator is modelled exactly and compared out of domain too.",
+  "note": "Trusted: Coq kernel; CPython Fraction arithmetic; adapters. 'note followed only by continuations' and positivity of the pieces are "
+          "checked on the implementation by the oracle, not proved.",
+ },
 }
